@@ -173,6 +173,20 @@ Live(e) == Consume /\ ~bad /\ R.ev = e
 (***************************************************************************)
 (* State-changing messages.                                                *)
 (***************************************************************************)
+\* C03 on the step from the current state to m2: the stable chain only grows, by blocks of the chain
+\* that was being served, and the new anchor lies on that chain.  The one listed exception is the
+\* depth escape choosing the last of several children tied on difficulty depth.
+FinalityChecks(m2) ==
+  LET served == stable \o BestChainOf(tree)
+      grown == Append(m2.stable, m2.T.anchor)
+      onServed == IsPrefix(grown, served)
+      first == IF Len(m2.stable) > Len(stable) /\ Len(BestChainOf(tree)) >= 2 THEN BestChainOf(tree)[2] ELSE 0
+      tie == /\ cfg.net # "mainnet" /\ Len(m2.stable) > Len(stable)
+             /\ \E c \in KidSet(tree, tree.anchor) :
+                   c # first /\ first # 0 /\ DDMap(tree)[c] = DDMap(tree)[first] /\ IsPrefix(stable \o <<tree.anchor, c>>, grown)
+  IN << <<"finality.prefix", TRUE, IsPrefix(stable, m2.stable)>>,
+        <<"finality.onServedChain", TRUE, onServed, IF tie THEN {<<"KF_TieDepthEscape", FALSE>>} ELSE {}>> >>
+
 \* common tail: compare the logged post-state with the specification's successor m2
 Land(m2, extra) ==
   /\ lastq' = NoQ /\ upg' = (R.ev = "upgrade")
@@ -180,7 +194,7 @@ Land(m2, extra) ==
      THEN /\ UNCHANGED <<vars, nad>> /\ bad' = TRUE
           /\ Note("MISMATCH", "trap", <<"the message trapped but the specification expects it to complete", R.msg>>)
      ELSE /\ Install(m2) /\ UNCHANGED <<uni, nad>>
-          /\ bad' = ~AllAgree(extra \o PostChecks(m2, R.post))
+          /\ bad' = ~AllAgree(extra \o FinalityChecks(m2) \o PostChecks(m2, R.post))
 
 \* The specification itself expects the message to trap: the only such case is the listed
 \* finding KF_ThresholdRaiseWhilePaused (the anchor's ingestion completes but, because the
@@ -245,6 +259,16 @@ TracePush ==
   /\ LET ok == Par(R.b) \in InTree(tree) /\ R.b \notin InTree(tree)
          m2 == IF ok THEN PushBlock(St, R.b) ELSE St
      IN Land(m2, << <<"push.result", IF ok THEN "ok" ELSE "err", R.out>> >>)
+
+RECURSIVE PushAll(_, _)
+PushAll(m, bs) ==
+  IF Len(bs) = 0 THEN m
+  ELSE IF Par(bs[1]) \in InTree(m.T) /\ bs[1] \notin InTree(m.T) THEN PushAll(PushBlock(m, bs[1]), Tail(bs))
+  ELSE PushAll(m, Tail(bs))
+
+TraceBulkPush ==
+  /\ Live("bulk_push")
+  /\ Land(PushAll(St, R.bs), <<>>)
 
 TraceIngest ==
   /\ Live("ingest")
@@ -499,7 +523,7 @@ TraceNext ==
   \/ TraceSendTx
   \/ TraceWalkStart \/ TraceWalkNext \/ TracePageRaw
   \/ TraceUniverse \/ Skip \/ TraceTick \/ TraceHb \/ TraceHbSend \/ TraceHbReply
-  \/ TraceSetConfig \/ TraceUpgrade \/ TracePush \/ TraceIngest
+  \/ TraceSetConfig \/ TraceUpgrade \/ TracePush \/ TraceBulkPush \/ TraceIngest
   \/ TraceQuery \/ TraceFees
 
 TraceSpec == TraceInit /\ [][TraceNext]_tvars
